@@ -169,6 +169,13 @@ func (u *Unit) evalModifies(mods []BoundMod, envFor func(fromIface bool) *Env) (
 		x := m.Expr
 		switch x.Kind {
 		case "ident":
+			if x.Name == "apiEffects" {
+				// everything a user callback can change through the exported API
+				for cn := range u.v.eff.api.W {
+					get(cn).Whole = true
+				}
+				continue
+			}
 			if _, ok := enc.comps[x.Name]; ok {
 				get(x.Name).Whole = true
 				continue
